@@ -17,7 +17,7 @@ LEVELS = {p: "exploration" for p in PROPS}
 
 # class mix per property (weights); every property also sees the generic classes
 MIX: Dict[str, List[str]] = {
-    "C01": ["random", "random", "feesliq", "margin", "cross", "precision"],
+    "C01": ["random", "random", "feesliq", "margin", "cross", "precision", "micro_c07"],
     "C02": ["random", "margin", "margin", "feesliq", "cross", "precision", "micro_c07", "micro_c08"],
     "C04": ["ample", "ample", "feesliq", "random", "precision", "micro_c04", "micro_c04"],
     "C05": ["random", "feesliq", "ample", "long", "margin"],
